@@ -6,6 +6,8 @@ import (
 	"encoding/json"
 	"fmt"
 	"github.com/verily-src/fhirpath-go/fhirpath/verifh/ftab"
+	"google.golang.org/protobuf/proto"
+	"google.golang.org/protobuf/reflect/protoreflect"
 	"os"
 	"os/exec"
 	"strings"
@@ -230,12 +232,13 @@ func c04RunExternal(r *core.Rec, envVar string, args ...string) *c04External {
 func init() {
 	calls := c04Calls()
 	resources := map[string]func() []fhir.Resource{
-		"Patient":     func() []fhir.Resource { return []fhir.Resource{lib.Patient()} },
-		"Observation": func() []fhir.Resource { return []fhir.Resource{lib.Observation()} },
-		"Bundle":      func() []fhir.Resource { return []fhir.Resource{lib.Bundle()} },
+		"Patient":              func() []fhir.Resource { return []fhir.Resource{lib.Patient()} },
+		"Observation":          func() []fhir.Resource { return []fhir.Resource{lib.Observation()} },
+		"Bundle":               func() []fhir.Resource { return []fhir.Resource{lib.Bundle()} },
+		"PatientWithContained": func() []fhir.Resource { return []fhir.Resource{lib.PatientWithContained()} },
 	}
 	evSrcs := []string{"Patient.name.where(use = 'official').given", "Bundle.entry.resource.name.select(given.first() & ' ' & family)", "now() > @2020-01-01T00:00:00Z and today() = now().toString().substring(0,10).toDate()",
-		"%v + 1", "Patient.name.given[%v]", "%col.where($this is Integer and $this > %v)", "%col.skip(1).select($this.toString()).exists($this = '2')", "Observation.value.value * 2", "Patient.name.given.distinct().count()", "iif(%context.id.exists(), %context.id, 'none')", "Patient.name.all(given.count() > 0) and Patient.telecom.rank.exists($this > 1)"}
+		"%v + 1", "Patient.name.given[%v]", "Patient.active and true", "Patient.active.not() or false", "Patient.contained.id", "Patient.contained.code.coding.code", "%col.where($this is Integer and $this > %v)", "%col.skip(1).select($this.toString()).exists($this = '2')", "Observation.value.value * 2", "Patient.name.given.distinct().count()", "iif(%context.id.exists(), %context.id, 'none')", "Patient.name.all(given.count() > 0) and Patient.telecom.rank.exists($this > 1)"}
 	optNames := []string{"v=1", "v=2"}
 	// col: a caller-owned collection; the history shares one, the isolated reference gets a fresh one
 	newCol := func() system.Collection {
@@ -250,7 +253,7 @@ func init() {
 	}
 	var evAlphabet []c04Ev
 	for _, s := range evSrcs {
-		for _, rn := range []string{"Patient", "Observation", "Bundle"} {
+		for _, rn := range []string{"Patient", "Observation", "Bundle", "PatientWithContained"} {
 			for _, o := range optNames {
 				evAlphabet = append(evAlphabet, c04Ev{s, rn, o})
 			}
@@ -260,7 +263,7 @@ func init() {
 
 	core.Register(&core.Check{
 		ID:          "C04",
-		Rule:        "schedules: preemption-bounded depth-first exploration (bound 2 quick / 3 thorough, iterated 0,1,2,...) of every interleaving of 2-3 threads at the scheduling points the instrumenter inserts at every function entry, loop iteration and package-level variable access of the current tree (controlled cooperative scheduler, executions run to completion, prefix replay checked), for 13 scenarios (shared compiled expression x shared resource for every node kind, custom functions incl. nested calls, Compile with AddFunction/WithExperimentalFuncs in parallel, a shared patch expression on two resources, 3 threads); per execution: each thread's observation equals its isolated observation, no write to a package-level variable, inputs unchanged. Compile histories: every sequence of length <=3 (quick) / <=4 (thorough) over a 13-call alphabet (plain, AddFunction fresh/again/built-in name/experimental name, WithExperimentalFuncs, Permissive, patch.Compile, Transform): the observable Compile state (probe programs + reflective table snapshot) never leaves the initial state and each call's outcome equals its outcome in the empty history. Evaluate histories: every sequence of length <=2 (quick) / <=3 (thorough) over 66 (expression, resource, options) evaluations, two of them over a caller-owned collection that the whole history shares on shared compiled expressions: each result equals the isolated result and earlier results are unchanged afterwards. Process histories: every rotation of a 170-odd element alphabet, one fresh process each, so that every ordered pair of calls occurs with the first before the second; each outcome must equal the outcome of that call as the first call of a fresh process (catches process-wide memo tables and caches keyed too coarsely). Clock: now()/today()/timeOfDay() programs x 14 override instants (incl. the zero time) denote exactly the override; the whole date/time battery gives identical results under TZ in {UTC, Asia/Kolkata, America/St_Johns, Pacific/Chatham}. A free-running -race pass of the scenario bodies (a sample of OS schedules, labelled as such) can only add violations; non-trivial = distinct (history | schedule, observation vector)",
+		Rule:        "schedules: preemption-bounded depth-first exploration (bound 2 quick / 3 thorough, iterated 0,1,2,...) of every interleaving of 2-3 threads at the scheduling points the instrumenter inserts at every function entry, loop iteration and package-level variable access of the current tree (controlled cooperative scheduler, executions run to completion, prefix replay checked), for 13 scenarios (shared compiled expression x shared resource for every node kind, custom functions incl. nested calls, Compile with AddFunction/WithExperimentalFuncs in parallel, a shared patch expression on two resources, 3 threads); per execution: each thread's observation equals its isolated observation, no write to a package-level variable, inputs unchanged. Compile histories: every sequence of length <=3 (quick) / <=4 (thorough) over a 13-call alphabet (plain, AddFunction fresh/again/built-in name/experimental name, WithExperimentalFuncs, Permissive, patch.Compile, Transform): the observable Compile state (probe programs + reflective table snapshot) never leaves the initial state and each call's outcome equals its outcome in the empty history. Evaluate histories: every sequence of length <=2 (quick) / <=3 (thorough) over 112 (expression, resource, options) evaluations (4 inputs incl. a Patient with a contained resource), two of them over a caller-owned collection that the whole history shares; in a second pass the caller overwrites every returned collection and edits returned copies, and later results must be unaffected on shared compiled expressions: each result equals the isolated result and earlier results are unchanged afterwards. Process histories: every rotation of a 170-odd element alphabet, one fresh process each, so that every ordered pair of calls occurs with the first before the second; each outcome must equal the outcome of that call as the first call of a fresh process (catches process-wide memo tables and caches keyed too coarsely). Clock: now()/today()/timeOfDay() programs x 14 override instants (incl. the zero time) denote exactly the override; the whole date/time battery gives identical results under TZ in {UTC, Asia/Kolkata, America/St_Johns, Pacific/Chatham}. A free-running -race pass of the scenario bodies (a sample of OS schedules, labelled as such) can only add violations; non-trivial = distinct (history | schedule, observation vector)",
 		Assumptions: []string{"scheduling points are function entries, loop iterations and package-variable accesses; finer-grained unsynchronised accesses are only seen by the free-running -race pass", "more than 3 threads and more than 3 preemptions are not explored"},
 		Subs: func(tier string) []core.Sub {
 			histLen, evLen := 3, 2
@@ -341,6 +344,34 @@ func init() {
 							}
 						}
 						earlier = append(earlier, done{ev, coll, lib.ShowColl(coll)}) // the collection as returned (nil after an error)
+					}
+					// second pass over the same history: the caller now treats every result as its own - it overwrites the
+					// slots of the returned collection and edits returned elements that are not nodes of its input (decoded
+					// copies). Later evaluations must still give what they give in a process where nobody did that.
+					ref := c04EvReference(evAlphabet, shared, resources, mkOpts, newCol)
+					var hist2 []string
+					kept := map[string][]fhir.Resource{} // the caller keeps its resources for the whole history
+					for _, ei := range seq {
+						ev := evAlphabet[ei]
+						hist2 = append(hist2, fmt.Sprintf("%s on %s with %s", ev.src, ev.res, ev.opts))
+						e := shared[ev.src]
+						if e == nil {
+							continue
+						}
+						if kept[ev.res] == nil {
+							kept[ev.res] = resources[ev.res]()
+						}
+						in := kept[ev.res]
+						coll, err := e.Evaluate(in, mkOpts(ev.opts, newCol())...)
+						r.Eval()
+						got := lib.ShowColl(coll)
+						if err != nil {
+							got = "ERROR"
+						}
+						if got != ref[ei] {
+							r.Fail("evaluate-history|result-depends-on-what-a-caller-did-to-an-earlier-result", core.W{"history": hist2, "got": got, "untouched_process": ref[ei]})
+						}
+						c04Tamper(in, coll)
 					}
 					if lib.ShowColl(sharedCol) != lib.ShowColl(newCol()) {
 						r.Fail("evaluate-history|caller-owned-collection-changed", core.W{"history": hist, "collection_now": lib.ShowColl(sharedCol), "collection_before": lib.ShowColl(newCol())})
@@ -509,6 +540,78 @@ func c04IsolatedOutcomes() []string {
 		}
 	}
 	return c04Isolated
+}
+
+// c04EvReference: every evaluation of the alphabet once, on fresh inputs, before any result has been tampered with
+var c04EvRef []string
+
+func c04EvReference(al []c04Ev, shared map[string]*fhirpath.Expression, resources map[string]func() []fhir.Resource, mkOpts func(string, system.Collection) []fhirpath.EvaluateOption, newCol func() system.Collection) []string {
+	if c04EvRef != nil {
+		return c04EvRef
+	}
+	out := make([]string, len(al))
+	for i, ev := range al {
+		e, err := fhirpath.Compile(ev.src)
+		if err != nil {
+			out[i] = "COMPILE-ERROR"
+			continue
+		}
+		c, everr := e.Evaluate(resources[ev.res](), mkOpts(ev.opts, newCol())...)
+		out[i] = lib.ShowColl(c)
+		if everr != nil {
+			out[i] = "ERROR"
+		}
+	}
+	c04EvRef = out
+	return out
+}
+
+// c04Tamper does what a caller is free to do with a result it received: overwrite the slots of the returned
+// slice, and edit returned elements that are not nodes of the input resources (they are the caller's copies).
+func c04Tamper(in []fhir.Resource, coll system.Collection, alsoOwn ...proto.Message) {
+	c04TamperOpt(true, in, coll, alsoOwn...)
+}
+
+// c04TamperOpt: slots=false edits the returned copies only (a returned collection may legitimately be a view of a
+// collection the caller supplied through the environment, whose slots are then the caller's own)
+func c04TamperOpt(slots bool, in []fhir.Resource, coll system.Collection, alsoOwn ...proto.Message) {
+	own := map[protoreflect.Message]bool{}
+	var walk func(m protoreflect.Message)
+	walk = func(m protoreflect.Message) {
+		own[m] = true
+		m.Range(func(fd protoreflect.FieldDescriptor, v protoreflect.Value) bool {
+			if fd.Message() == nil || fd.IsMap() {
+				return true
+			}
+			if fd.IsList() {
+				for i := 0; i < v.List().Len(); i++ {
+					walk(v.List().Get(i).Message())
+				}
+			} else {
+				walk(v.Message())
+			}
+			return true
+		})
+	}
+	for _, res := range in {
+		walk(res.ProtoReflect())
+	}
+	for _, m := range alsoOwn { // elements the caller handed in through the environment are its originals, not copies
+		if m != nil {
+			walk(m.ProtoReflect())
+		}
+	}
+	for i, it := range coll {
+		if m, ok := it.(proto.Message); ok && m != nil && !own[m.ProtoReflect()] {
+			pm := m.ProtoReflect()
+			if vf := pm.Descriptor().Fields().ByName("value"); vf != nil && vf.Kind() == protoreflect.StringKind {
+				pm.Set(vf, protoreflect.ValueOfString("tampered-by-the-caller"))
+			}
+		}
+		if slots {
+			coll[i] = system.String("slot-overwritten-by-the-caller")
+		}
+	}
 }
 
 var c04Shared map[string]*fhirpath.Expression
